@@ -1,4 +1,5 @@
 mod common;
+mod c16;
 mod c11;
 mod c14;
 mod store;
@@ -11,6 +12,7 @@ fn main() {
         "C14" => c14::run(&args),
         "C01" => c01::run(&args),
         "C11" => c11::run(&args),
+        "C16" => c16::run(&args),
         x => {
             eprintln!("unknown property {}", x);
             std::process::exit(2);
